@@ -40,6 +40,8 @@ pub enum E {
     N(i64),
     /// n/4 written as a decimal literal (0.25, 2.5, ...)
     Q(i64),
+    /// a literal in exponent or radix form: canonical (upper-case) text and its exact value
+    Lit(&'static str, f64),
     V(String),
     Bin(Box<E>, &'static str, Box<E>),
     Neg(Box<E>),
@@ -191,6 +193,13 @@ impl<'a> G<'a> {
         }
         if self.o.frac && self.rng.chance(1, 6) {
             return E::Q(*self.rng.pick(&[1i64, 2, 3, 5, 6, 10, -2, 1, 2]));
+        }
+        if self.o.frac && self.rng.chance(1, 10) {
+            let (t, v) = *self.rng.pick(&[
+                ("1E1", 10.0), ("2D0", 2.0), ("25E-1", 2.5), ("5E-1", 0.5), ("75D-2", 0.75), ("1D1", 10.0), ("15E-1", 1.5), ("3E0", 3.0),
+                ("&H1F", 31.0), ("&17", 15.0), ("&HA", 10.0), ("&10", 8.0), ("&HC", 12.0), ("2E+0", 2.0), ("1.5D+1", 15.0), ("4!", 4.0), ("6#", 6.0), ("7%", 7.0),
+            ]);
+            return E::Lit(t, v);
         }
         match self.rng.usize(5) {
             0 | 1 => E::N(self.rng.range(0, 9)),
@@ -842,6 +851,7 @@ impl<'a> Render<'a> {
                     t
                 }
             }
+            E::Lit(t, _) => self.w(t),
             E::V(v) => self.w(v),
             E::Neg(x) => {
                 let s = format!("-{}", self.expr(x, 12));
@@ -1373,6 +1383,7 @@ impl<'a> M<'a> {
             }
             E::N(n) => *n as f64,
             E::Q(n) => *n as f64 / 4.0,
+            E::Lit(_, v) => *v,
             E::V(v) => match env.get(v) {
                 Some(x) => *x,
                 None => *self.vars.get(v).unwrap_or(&0.0),
